@@ -496,6 +496,11 @@ static void leakcheck(void) {
     printf("LEAKCHECK skipped\n");     /* the counters are per process */
 #else
     printf("LEAKCHECK live=%ld fds=%d\n", live_blocks, open_fds() - (T->fd_base_ - closed_by_lib));
+    if (getenv("HARNESS_DEBUG_LEAK")) {
+        /* where the leaked blocks were allocated (sanitizer builds only) */
+        extern void __asan_describe_address(void *) __attribute__((weak));
+        for (int i = 0; i < LSET; i++) if (lset[i] && lset[i] != (void *)1 && __asan_describe_address) __asan_describe_address(lset[i]);
+    }
 #endif
 }
 
